@@ -3,6 +3,7 @@ CONSTANTS
   Scripts <- OneScript
   Direct = TRUE
   ForwardHalfClose = TRUE
+  JoinBeforeError = FALSE
   NeedFirstMessage = FALSE
 INVARIANTS Emit
 CHECK_DEADLOCK FALSE
